@@ -124,6 +124,7 @@ int cif_packet_create(cif_packet_tp **packet, UChar *names[]) {
 int cif_packet_create_norm(cif_packet_tp **packet, UChar **names, int avoid_aliasing) {
     FAILURE_HANDLING;
     cif_packet_tp *temp_packet;
+    struct entry_s *pending = NULL;
 
     assert(names != NULL);
     assert(packet != NULL);
@@ -148,10 +149,15 @@ int cif_packet_create_norm(cif_packet_tp **packet, UChar **names, int avoid_alia
                     scalar->key = *name;
                 } else {
                     scalar->key = cif_u_strdup(*name);
-                    if (scalar->key == NULL) FAIL(soft, CIF_MEMORY_ERROR);
+                    if (scalar->key == NULL) {
+                        free(scalar);
+                        FAIL(soft, CIF_MEMORY_ERROR);
+                    }
                 }
                 scalar->key_orig = scalar->key;
+                pending = scalar;
                 HASH_ADD_KEYPTR(hh, temp_packet->map.head, scalar->key, U_BYTES(scalar->key), scalar);
+                pending = NULL;
             }
         }
 
@@ -160,6 +166,10 @@ int cif_packet_create_norm(cif_packet_tp **packet, UChar **names, int avoid_alia
         return CIF_OK;
 
         FAILURE_HANDLER(soft):
+        if (pending != NULL) {
+            /* an entry that could not be added to the packet */
+            cif_map_entry_free_internal(pending, &(temp_packet->map));
+        }
         cif_packet_free(temp_packet);
     }
 
